@@ -10,7 +10,7 @@ From TLV Require Import Base.Ops Model.Prox Proofs.ProxProofs Proofs.ProxProofsH
   Proofs.ProxProofsMore Proofs.ProxProofsMatrix Proofs.ProxProofsRun Proofs.ProxRunTransfer
   Base.RSum Proofs.ProxProofsSvt Proofs.ProxProofsSvtList Proofs.ProxProofsFirm2 Proofs.ProxProofsRunIdem Proofs.ProxProofsRunFirm
   Proofs.ConstraintsProofsUni Proofs.ProxProofsIdem2 Proofs.ProxProofsSvtPerturb Proofs.ProxProofsSmoothNd
-  Model.ProxSvtGap Proofs.ProxProofsSvtGap Proofs.ProxSvtGapTransfer.
+  Model.ProxSvtGap Proofs.ProxProofsSvtGap Proofs.ProxSvtGapTransfer Proofs.ProxProofsTapeCert.
 Import ListNotations.
 Open Scope R_scope.
 
@@ -599,6 +599,25 @@ Theorem C12_svt_gap_exec_sound : forall (m n k : nat) (U : list (list Q)) (s : l
 Proof. exact svt_gap_exec_sound. Qed.
 Print Assumptions C12_svt_gap_exec_sound.
 
+(* ---- round 7: the per-case certificate.  Corr/C12.svt_case_ok is a BOOLEAN evaluated by the correspondence on the rational data of every svd_thresholding
+   case (shapes, s >= 0, t >= 0, both Gram matrices of the recorded answer within 1e-9 of the identity entrywise, in exact arithmetic); when it is true
+   the matrix the executed model returns is optimal up to the rational number svt_gap computes - no hypothesis about the SVD oracle is left.
+   C12_tape_gram_aocols: the entrywise comparison the correspondence computes IS the hypothesis aocols of the perturbation theorems. *)
+Theorem C12_tape_gram_aocols : forall m k (U : list (list Q)) (e : Q), (1 <= m)%nat -> (1 <= k)%nat -> rect m k (map (map Q2R) U) ->
+  C12.rows_close e 0 (gram_cols Qops U) (identity_mat Qops k) = true -> aocols m k (Q2R e) (mfun (map (map Q2R) U)).
+Proof. exact gram_cols_close_aocols. Qed.
+Print Assumptions C12_tape_gram_aocols.
+Theorem C12_svt_case_certified : forall (m n k : nat) (U : list (list Q)) (s : list Q) (V M : list (list Q)) (t : Q),
+  C12.svt_case_ok m n k U s V M t = true ->
+  forall (Z : nat -> nat -> R) (nu : R), nuc_le m n Z nu ->
+  let e := (1 # 1000000000)%Q in
+  let X := mfun (map (map Q2R) (svd_thresholding_with Qops U s V t)) in
+  nuc_le m n X ((1 + Q2R e) * lsum Rops (soft_thresholding Rops (Q2R t) (map Q2R s))) /\
+  Q2R t * ((1 + Q2R e) * lsum Rops (soft_thresholding Rops (Q2R t) (map Q2R s))) + fro2 m n X (mfun (map (map Q2R) M)) / 2
+  <= Q2R t * nu + fro2 m n Z (mfun (map (map Q2R) M)) / 2 + Q2R (svt_gap Qops e U s V t M).
+Proof. exact svt_case_certified. Qed.
+Print Assumptions C12_svt_case_certified.
+
 (* ---- round 7: smoothness_prox / proximal_operator(smoothness=t) on a tensor with three or more dimensions, the code as it is
    (Model/ProxDispatch.smooth_nd: NumPy's stacked solve of the shape[0] x shape[0] system against the shape[-2] x shape[-1] slices): the call raises
    exactly when shape[-2] <> shape[0]; otherwise the result is, slice by slice and column by column, the solution of the coded tridiagonal system and
@@ -741,3 +760,7 @@ Example C12_nonvacuous_svt_gap :
   Qle_bool 0 (svt_gap Qops (1 # 1000000000) [[1; 0]; [0; 1]]%Q [3; 1]%Q [[0; 1]; [1; 0]]%Q 2%Q [[0; 3]; [1; 0]]%Q) = true /\
   Qle_bool (svt_gap Qops (1 # 50) [[1; (1 # 100)]; [0; 1]]%Q [3; 1]%Q [[0; 1]; [1; 0]]%Q 2%Q [[(1 # 100); 3]; [1; 0]]%Q) 1 = true.
 Proof. repeat split; vm_compute; reflexivity. Qed.
+Example C12_nonvacuous_svt_case :
+  C12.svt_case_ok 2 2 2 [[1; 0]; [0; 1]]%Q [3; 1]%Q [[0; 1]; [1; 0]]%Q [[0; 3]; [1; 0]]%Q 2%Q = true /\
+  C12.svt_case_ok 2 2 2 [[1; (1 # 100)]; [0; 1]]%Q [3; 1]%Q [[0; 1]; [1; 0]]%Q [[0; 3]; [1; 0]]%Q 2%Q = false.
+Proof. split; vm_compute; reflexivity. Qed.
